@@ -342,6 +342,21 @@ PROPS['C17'] = dict(
     explanation='Single-call property; the statement over histories is the per-call contract applied to each send.',
 )
 
+PROPS['C14'] = dict(
+    units=['k_ghash'], level='proof', design_ref='12/C14',
+    technique='CBMC assertions on the schema compiler\'s group_hash (compiler/f8c.cpp) and rothash (include/fix8/f8utils.hpp) extracted from the clang AST: the structural key under which f8c shares '
+              'generated group metadata must be injective on the definitions of one count field; the refuting field numbers are replayed through the real rothash and the real f8c on a generated schema',
+    text='f8c files every definition of a group count field under group_hash(definition) and emits ONE set of traits per key, so two definitions share metadata exactly when their keys are equal. '
+         'Proved (all inputs): rothash is the documented mixing function and is injective in its value argument for every accumulator; definitions with one member field never collide. '
+         'KNOWN FINDING (refuted, counterexample replayed on the real compiler): two-member definitions with different member fields can have equal keys -- the mixing function is linear over GF(2), '
+         'key(a,b) = g(a) ^ b ^ const -- e.g. members {200,1024} and {201,9249}: the real f8c then reports "1 variants, 2 common" and the generated code uses the first definition\'s trait table for '
+         'the second message\'s group. NOT decided: the rest of the compiler (load_messages / find_group / trait emission), nested-group shapes beyond the fixed ones, definitions that differ only in '
+         'field order or required flags (they share a key by construction and are outside the property\'s wording).',
+    note='shape-bounded (one / two member fields, no nested groups), field numbers symbolic; iteration order of the presence set is an ASSUMED model',
+    trusted_base=COMMON_TRUST,
+    explanation='Injectivity of the sharing key is the invariant the compiler\'s CommonGroups map relies on; a refutation with concrete field numbers is a schema that breaks the property.',
+)
+
 # ---------------------------------------------------------------- native replayers
 import os
 import re
@@ -513,7 +528,57 @@ def _replay_k_tok(oid, inputs, trace, wd):
     return dict(steps=[dict(kind='native replay (%s): real extract_header / tokenisers under ASan' % which, rc=rc, asan_report=asan, output=o[-1800:])], reproduced=(rc != 0 or asan))
 
 
+
+def _replay_k_ghash(oid, inputs, trace, wd):
+    import subprocess
+    R = _rp.astdump.REPO
+    inputs = inputs or {}
+    v = [_rp.num(inputs.get(k, '')) for k in ('a0', 'a1', 'b0', 'b1')]
+    if None in v:
+        v = [200, 1024, 201, 9249]          # the counterexample recorded with the known finding
+    out = dict(steps=[])
+    exe = _rp.build_native(os.path.join(_rp.VERIF, 'replay', 'k_ghash.cpp'), os.path.join(wd, 'replay_k_ghash'))
+    rc, o = _rp.run_native(exe, v)
+    out['steps'].append(dict(kind='native: real rothash folded over both member lists', rc=rc, output=o[-600:]))
+    # the real schema compiler, built from the working tree's compiler/*.cpp, on a generated schema whose two messages define group 5000 with these member fields
+    lib = R + '/runtime/.libs' if os.path.exists(R + '/runtime/.libs/libfix8.so') else '/repo/runtime/.libs'
+    f8c = os.path.join(wd, 'f8c_wt')
+    p = subprocess.run(['g++', '-std=gnu++17', '-O0', '-w', '-DHAVE_CONFIG_H', '-I' + R + '/include', '-I' + R, '-I' + R + '/compiler'] +
+                       [R + '/compiler/' + f for f in ('f8c.cpp', 'f8cutils.cpp', 'f8precomp.cpp')] +
+                       ['-o', f8c, '-L' + lib, '-lfix8', '-Wl,-rpath,' + lib, '-lPocoNet', '-lPocoUtil', '-lPocoFoundation', '-lpthread'],
+                       stdout=subprocess.PIPE, stderr=subprocess.STDOUT, text=True, timeout=900)
+    if p.returncode != 0:
+        out['steps'].append(dict(kind='build of f8c from the working tree failed', rc=p.returncode, output=p.stdout[-800:]))
+        out['reproduced'] = rc == 1
+        return out
+    gd = os.path.join(wd, 'ghash_gen')
+    os.makedirs(gd, exist_ok=True)
+    xml = open(os.path.join(_rp.VERIF, 'replay', 'k_ghash_schema.xml')).read()
+    for k, n in zip(('@A0@', '@A1@', '@B0@', '@B1@'), v):
+        xml = xml.replace(k, str(n))
+    with open(os.path.join(gd, 'coll.xml'), 'w') as f:
+        f.write(xml)
+    p = subprocess.run([f8c, '-sV', '-p', 'coll', '-n', 'COLL', 'coll.xml'], cwd=gd, stdout=subprocess.PIPE, stderr=subprocess.STDOUT, text=True, timeout=300)
+    shared = None
+    try:
+        tr = open(os.path.join(gd, 'coll_traits.cpp')).read()
+        m = re.search(r'Second::NoThings::_traits(\[\]\s*\{(.*?)\};|\((\w+)\))', tr, re.S)
+        table = m.group(2) if m and m.group(2) else None
+        if m and m.group(3):
+            mm = re.search(r'const FieldTrait ' + m.group(3) + r'\[\][^{]*\{(.*?)\};', tr, re.S)
+            table = mm.group(1) if mm else None
+        nums = sorted(int(x) for x in re.findall(r'\{\s*(\d+),', table or ''))
+        shared = nums != sorted(v[2:])
+        out['steps'].append(dict(kind='real f8c on the generated schema: the member table the generated code uses for the second message\'s group', rc=p.returncode,
+                                 second_definition=sorted(v[2:]), table_used_by_generated_code=nums, output=p.stdout[-400:]))
+    except Exception as e:
+        out['steps'].append(dict(kind='f8c output could not be inspected', error=str(e)[:300], output=p.stdout[-400:]))
+    out['reproduced'] = rc == 1 and bool(shared)
+    return out
+
+
 replayers['k_tok'] = _replay_k_tok
+replayers['k_ghash'] = _replay_k_ghash
 replayers['k_seq'] = _replay_k_seq
 replayers['k_hb'] = _replay_k_seq
 replayers['k_rtx'] = _replay_k_seq
